@@ -239,8 +239,8 @@ def tables(repo):
     for bname, bval in t["enums"]["EprMeasBasis"]:
         basis = be.EprMeasBasis(bval)
         rot = be.basis_to_rotation(basis)
-        if be.rotation_to_basis(rot) != basis:
-            raise GenError(f"rotation_to_basis(basis_to_rotation({bname})) != {bname}")
+        if not (isinstance(rot, tuple) and len(rot) == 3 and all(isinstance(x, int) and not isinstance(x, bool) for x in rot)):
+            raise GenError(f"basis_to_rotation({bname}) = {rot!r}")
         for _, bell in t["enums"]["BellState"]:
             for m in (0, 1):
                 r = be.EprMeasureResult(raw_measurement_outcome=FakeFuture(m), measurement_basis_local=rot,
@@ -257,6 +257,11 @@ def tables(repo):
                 pp.append((bval, bell, m, o, r2.measurement_outcome))
     t["postproc"] = pp
     t["basis_rot"] = [(bval, be.basis_to_rotation(be.EprMeasBasis(bval))) for _, bval in t["enums"]["EprMeasBasis"]]
+    back = []
+    for _, bval in t["enums"]["EprMeasBasis"]:
+        r = be.rotation_to_basis(be.basis_to_rotation(be.EprMeasBasis(bval)))
+        back.append((bval, r.value if isinstance(r, be.EprMeasBasis) else -1))
+    t["basis_back"] = back
     return t
 
 
@@ -332,6 +337,7 @@ def emit(t):
              + lst(f"({z(a)}, {z(b_)}, {z(c)}, {z(d)}, {z(e)})" for a, b_, c, d, e in t["postproc"]) + ".")
     L.append("Definition gen_basis_rot : list (Z * (Z * Z * Z)) := "
              + lst(f"({z(a)}, ({z(x)}, {z(y)}, {z(w)}))" for a, (x, y, w) in t["basis_rot"]) + ".")
+    L.append("Definition gen_basis_back : list (Z * Z) := " + lst(f"({z(a)}, {z(b_)})" for a, b_ in t["basis_back"]) + ".")
     return "\n".join(L) + "\n"
 
 
